@@ -741,14 +741,22 @@ func (e *executor) memoAdd(key string) {
 }
 
 // setAddressSpace sets the soft address-space limit of the executor: the full 4 GiB for nesting
-// towers (the goroutine stack grows by doubling), 512 MiB for everything else, so that an
+// towers (the goroutine stack grows by doubling), 512 MiB above the current size for everything else, so that an
 // absurd allocation fails at once instead of page-faulting through gigabytes. Any allocation that
 // can fail under 512 MiB is far beyond the C02 bound (16 MiB + 1 KiB per input byte, inputs of
 // these units are shorter than 64 KiB).
 func setAddressSpace(kind string) {
-	lim := syscall.Rlimit{Cur: smallLimit, Max: memLimit}
-	if kind == "tower" {
-		lim.Cur = memLimit
+	// the limit counts address space, including what the Go runtime has reserved at start-up:
+	// allow smallLimit on top of the current size
+	lim := syscall.Rlimit{Cur: memLimit, Max: memLimit}
+	if kind != "tower" {
+		if b, err := os.ReadFile("/proc/self/statm"); err == nil {
+			var pages uint64
+			fmt.Sscanf(string(b), "%d", &pages)
+			if c := pages*uint64(os.Getpagesize()) + smallLimit; c < memLimit {
+				lim.Cur = c
+			}
+		}
 	}
 	syscall.Setrlimit(syscall.RLIMIT_AS, &lim)
 }
